@@ -304,7 +304,12 @@ def oracle(ctx, heavy=False):
                 # tuple state == concatenated state
                 ft = lambda t, ys: (f(t, ys[0]), f(t, ys[1]))
                 y0b = (y0, torch.stack([y0, y0 * 0.5]))
-                tup = solve_ivp(ft, ts, y0b, method=meth)
+                try:
+                    tup = solve_ivp(ft, ts, y0b, method=meth)
+                except Exception as e:
+                    ctx.fail("oracle", "ivp:%s:tuple:exception" % meth, {"family": name, "state": "tuple of a (3,) and a (2, 3) tensor"}, repr(e)[:200],
+                             "the same result as for the concatenated state")
+                    continue
                 cat = solve_ivp(lambda t, y: torch.cat([f(t, y[:3]), f(t, y[3:6]), f(t, y[6:9])]), ts,
                                 torch.cat([y0, y0, y0 * 0.5]), method=meth)
                 got = torch.cat([tup[0], tup[1].reshape(len(ts), -1)], dim=-1)
